@@ -80,6 +80,10 @@ def store_all(path, case, order, strategy):
         elif rep == 2:
             buf = memoryview(buf)
         acc.store_chunk(buf, KEY, coords_of(pos, case["cs"], sc["size"]))
+        if rep == 1:
+            # the caller's buffer is its own again once the call has returned
+            # (an encoder that re-uses one output buffer for every chunk)
+            buf[:] = b"\xee" * len(buf)
     acc.close()
     return acc
 
